@@ -30,8 +30,8 @@ FLOORS = {'quick': {'evaluations': 40000, 'distinct_nontrivial': 20000,
                     'monitors': {'M2._spikes_per_cluster.checked': 40000, 'M2._index_of.checked': 40000,
                                  'M2._spikes_in_clusters.checked': 100000, 'M2._unique.checked': 40000,
                                  'M2.grouped_mean.checked': 40000, 'M2._flatten_per_cluster.checked': 40000}},
-          'thorough': {'evaluations': 500000, 'distinct_nontrivial': 200000,
-                       'monitors': {'M2._spikes_per_cluster.checked': 500000}}}
+          'thorough': {'evaluations': 400000, 'distinct_nontrivial': 200000,
+                       'monitors': {'M2._spikes_per_cluster.checked': 400000}}}
 ASSUMPTIONS = ['negative ids ("unclustered") only enter _unique; _index_of is judged only under its '
                'documented precondition (values present in a duplicate-free non-negative lookup)']
 DTYPES = ['int32', 'int64', 'uint16', 'uint32']
